@@ -8,6 +8,9 @@ OPS = ['+', '-', '*', '<', '<=', '==', '!=', '&&', '||', '>', '>=', '/', '%', '*
 
 
 def num(n, d=1):
+    while d > 1 and n % 2 == 0:
+        n //= 2
+        d //= 2
     return {'k': 'num', 'v': {'t': 'num', 'f': 'q', 'n': n, 'd': d}}
 
 
